@@ -1348,6 +1348,38 @@ pub fn run_c04(ctx: &mut Ctx) {
         if case % 2 == 1 {
             rep.count("packets_with_api_leftovers");
         }
+        // a third of the packets hold their bytes in vectors with spare capacity (an earlier, larger
+        // body shrunk in place; values built in pre-sized buffers): lengths count, capacities do not
+        let mut p = p;
+        if case % 3 == 1 {
+            let extra = *r.pick(&[1usize, 7, 64, 700, 3000]);
+            let mut v: Vec<u8> = Vec::with_capacity(p.payload.len() + extra);
+            if r.bool() {
+                v.extend_from_slice(&p.payload);
+            } else {
+                v.extend_from_slice(&p.payload);
+                v.resize(p.payload.len() + extra, 0xEE);
+                v.truncate(p.payload.len());
+            }
+            p.payload = v;
+            let mut t: Vec<u8> = Vec::with_capacity(p.get_token().len() + extra);
+            t.extend_from_slice(p.get_token());
+            p.set_token(t);
+            let keys: Vec<CoapOption> = p.options().map(|(k, _)| CoapOption::from(*k)).collect();
+            for k in keys {
+                if let Some(list) = p.get_option(k).cloned() {
+                    let mut nl = LinkedList::new();
+                    for val in list {
+                        let mut nv: Vec<u8> = Vec::with_capacity(val.len() + extra % 97);
+                        nv.extend_from_slice(&val);
+                        nl.push_back(nv);
+                    }
+                    p.set_option(k, nl);
+                }
+            }
+            rep.count("packets_with_spare_capacity");
+        }
+        let p = p;
         c04_one(rep, &m, &p, label, maxsz, &mut r, seed, shard, case);
         // the same packet with a header whose TKL nibble no longer matches the stored token (the
         // header is a public field: assigned wholesale for a reply, or its token length set by hand)
@@ -1383,6 +1415,7 @@ pub fn run_c04(ctx: &mut Ctx) {
         }
     }
     rep.floor("inconsistent_header_limit_decisions", 1);
+    rep.floor("packets_with_spare_capacity", 1);
     // oversize option values: must be refused, never emitted with a wrong length
     if shard == 0 || san {
         for vlen in [65803usize, 65804, 65805, 65806, 70000, 65804 + 65536, 131341] {
